@@ -3,14 +3,22 @@ of /repo are run on enumerated arguments, and Coq runs the interpreter on the sy
 their source (coq/Gen/Pure.v) on the same arguments, in the context coq/Spec/PyEnv.v (module globals from the
 generated tables, callees = the other generated trees, oracles for bytes.decode / codecs.getdecoder -- so the
 oracles are validated against CPython here too).  Used as an extra correspondence pass by the checks whose
-models are tied to the source through Proofs/PureTie.v / Proofs/PureTieKeys.v (C03, C06, C10, C20)."""
+models are tied to the source through Proofs/PureTie.v / Proofs/PureTieKeys.v (C03, C06, C10, C20).
+
+The slicing algorithms of FmtStr (coq/Gen/PureFmt.v: FmtStr.__getitem__, FmtStr.divides, width_aware_slice,
+FmtStr.width_aware_slice) are run the same way in the contexts of coq/Spec/PyEnvFmt.v: the real methods on
+enumerated FmtStrs (layouts of up to 3 runs over a small alphabet with wide, combining and control characters,
+every int index and slice bound within 2 of the ends); what comes back is compared as an object -- the runs, text
+AND attributes -- or by exception class.  This validates the interpreter's loops / objects / local lists and the
+named oracles of that context (Chunk, FmtStr, fmtstr, len(fs), fs.s, fs.width, chunk.width, wcwidth, wcswidth)."""
 import enum
+import inspect
 import itertools
 
 import canon
 
-REQUIRE = ("From Coq Require Import String.\nFrom Curtsies Require Import Model.Base Spec.PyMini Gen.Pure Spec.PyEnv "
-           "Corr.PureCorr.\nLocal Open Scope string_scope.")
+REQUIRE = ("From Coq Require Import String.\nFrom Curtsies Require Import Model.Base Spec.PyMini Gen.Pure Gen.PureFmt "
+           "Spec.PyEnv Spec.PyEnvFmt Corr.PureCorr.\nLocal Open Scope string_scope.")
 CASE_TYPE = "PureCorr.case"
 MODEL_OK = "PureCorr.model_ok"
 SPEC_OK = "PureCorr.spec_ok"
@@ -18,7 +26,18 @@ CORR_VO = "Corr/PureCorr.vo"
 SHARD = 400
 
 
+class FS:
+    """a FmtStr argument / result, given by its runs [[text, atts-tuple], ...] (canon.canon_fs)"""
+    def __init__(self, runs):
+        self.runs = [[t, list(a)] for t, a in runs]
+
+    def __repr__(self):
+        return "FS(%r)" % (self.runs,)
+
+
 def coq_val(v):
+    if isinstance(v, FS):
+        return "(PureCorr.fs %s)" % canon.coq_fs(v.runs)
     if v is None:
         return "VNone"
     if v is True or v is False:
@@ -36,6 +55,8 @@ def coq_val(v):
     if isinstance(v, list):
         if all(isinstance(x, bytes) and len(x) == 1 for x in v):
             return "(PureCorr.bl [%s]%%N)" % ";".join(str(x[0]) for x in v)      # = VList [VBytes [b]; ...]
+        if v and all(type(x) is int for x in v):
+            return "(PureCorr.zl [%s]%%Z)" % ";".join(str(x) for x in v)
         return "(VList [%s])" % "; ".join(coq_val(x) for x in v)
     raise ValueError("value outside PyMini: %r" % (v,))
 
@@ -194,8 +215,112 @@ def _key_name_args(tier):
                 yield (s, enc, m)
 
 
+# ---- the slicing algorithms of FmtStr (curtsies.formatstring) ------------------------------------------------------
+RED = (2, 0, 0, 0, 0, 0, 0, 0)
+PLAIN = (0,) * 8
+BOLD_ON_BLUE = (0, 5, 1, 0, 0, 2, 0, 0)
+WIDE, COMB, CTRL = "\u4e2d", "\u0300", "\x01"          # 2 columns, 0 columns (combining), wcwidth = -1
+
+
+def _widths(chars):
+    """association list (Coq) of the characters whose cwcwidth.wcwidth is not 1"""
+    import cwcwidth
+    return "[%s]" % "; ".join("(%d%%N, (%d)%%Z)" % (ord(c), cwcwidth.wcwidth(c)) for c in sorted(set(chars))
+                              if cwcwidth.wcwidth(c) != 1)
+
+
+def _layouts(texts, attss, maxruns):
+    runs = [[t, list(a)] for t in texts for a in attss]
+    for n in range(maxruns + 1):
+        for combo in itertools.product(runs, repeat=n):
+            yield [list(r) for r in combo]
+
+
+def _bounds(n):
+    return [None] + list(range(-n - 2, n + 3))
+
+
+def _getitem_args(tier):
+    texts = ["", "a", "bc", WIDE + COMB] if tier == "thorough" else ["", "a", "bc"]
+    k = 0
+    for runs in _layouts(texts, [PLAIN, RED], 3):
+        n = sum(len(t) for t, _ in runs)
+        for i in range(-n - 2, n + 3):
+            yield (FS(runs), i)
+        for a in _bounds(n):
+            for b in _bounds(n):
+                k += 1
+                # quick: every slice for up to two runs, one in five for three runs
+                if tier == "thorough" or len(runs) < 3 or k % 5 == 0:
+                    yield (FS(runs), slice(a, b, None))
+        yield (FS(runs), slice(0, 1, 1))
+        yield (FS(runs), slice(None, None, -1))
+    yield (FS([["a" + WIDE + COMB, list(BOLD_ON_BLUE)], ["", list(PLAIN)], [COMB + "xy", list(RED)]]), slice(1, 4, None))
+
+
+def _divides_args(tier):
+    for runs in _layouts(["", "a", "bc", WIDE + COMB + "d"], [PLAIN, RED], 3):
+        yield (FS(runs),)
+
+
+WAS_ALPHABET = ["a", WIDE, COMB, CTRL]
+
+
+def _was_args(tier):
+    import cwcwidth
+    maxlen = 4 if tier == "thorough" else 3
+    for n in range(maxlen + 1):
+        for cs in itertools.product(WAS_ALPHABET, repeat=n):
+            s = "".join(cs)
+            w = sum(max(cwcwidth.wcwidth(c), 0) for c in s)
+            for start in range(-2, w + 3):
+                for end in range(-2, w + 3):
+                    yield (s, start, end)
+    for s in ["a" + WIDE + "b", WIDE + COMB + WIDE, COMB + "a"]:
+        for start in range(-1, 5):
+            for end in range(-1, 6):
+                yield (s, start, end, "#")
+                yield (s, start, end, "")
+                yield (s, start, end, "<>")
+                yield (s, start, end, WIDE)
+
+
+def _fs_was_args(tier):
+    import cwcwidth
+    texts = ["", "a", WIDE, "a" + COMB, COMB] + (["b" + WIDE] if tier == "thorough" else [])
+    k = j = 0
+    for runs in _layouts(texts, [PLAIN, RED], 3):
+        w = sum(max(cwcwidth.wcwidth(c), 0) for t, _ in runs for c in t)
+        k += 1
+        # quick: every layout of up to two runs, one in ten of three runs; a sample of the slices
+        if tier != "thorough" and len(runs) == 3 and k % 10:
+            continue
+        for i in range(-w - 2, w + 3):
+            yield (FS(runs), i)
+        for a in _bounds(w):
+            for b in _bounds(w):
+                j += 1
+                # thorough: every slice for up to two runs, every second one for three runs
+                if len(runs) < 2 or (tier == "thorough" and (len(runs) == 2 or j % 2 == 0)) \
+                        or (tier != "thorough" and j % (2 if len(runs) == 2 else 3) == 0):
+                    yield (FS(runs), slice(a, b, None))
+    # a character without a width: ValueError whatever the index; a step: NotImplementedError
+    for runs in ([[CTRL, list(PLAIN)]], [["a", list(RED)], ["b" + CTRL, list(PLAIN)]], [["", list(PLAIN)], [CTRL + WIDE, list(RED)]]):
+        for ix in (0, 1, -1, 5, slice(None, None, None), slice(0, 1, None), slice(1, None, 2)):
+            yield (FS(runs), ix)
+    yield (FS([["ab", list(PLAIN)]]), slice(0, 1, 1))
+
+
+FMT_CHARS = "abcdxy" + WIDE + COMB + CTRL
+
 EMPTY = "empty_ctx"
 FUNCS = {
+    # methods / properties of FmtStr (the key is used in file names: no dot; the qualified name is the fifth entry)
+    "FmtStr_getitem": ("curtsies.formatstring", "py_FmtStr_getitem", _getitem_args, "ctxF0", "FmtStr.__getitem__"),
+    "FmtStr_divides": ("curtsies.formatstring", "py_FmtStr_divides", _divides_args, "ctxF0", "FmtStr.divides"),
+    "width_aware_slice": ("curtsies.formatstring", "py_width_aware_slice", _was_args, "(PureCorr.cF1 fmt_widths)"),
+    "FmtStr_width_aware_slice": ("curtsies.formatstring", "py_FmtStr_width_aware_slice", _fs_was_args,
+                                 "(PureCorr.cF2 fmt_widths)", "FmtStr.width_aware_slice"),
     "normalize_slice": ("curtsies.formatstring", "py_normalize_slice", _normalize_slice_args, EMPTY),
     "interval_overlap": ("curtsies.formatstring", "py_interval_overlap", _interval_args, EMPTY),
     "could_be_unfinished_utf8": ("curtsies.events", "py_could_be_unfinished_utf8", _utf8_args, EMPTY),
@@ -214,14 +339,31 @@ class Pass:
     def __init__(self, fname):
         import importlib
         self.fname = fname
-        modname, self.coqname, self.args, self.ctx = FUNCS[fname]
-        self.fn = getattr(importlib.import_module(modname), fname)
+        modname, self.coqname, self.args, self.ctx = FUNCS[fname][:4]
+        qualname = FUNCS[fname][4] if len(FUNCS[fname]) > 4 else fname
+        mod = importlib.import_module(modname)
+        if "." in qualname:
+            clsname, member = qualname.split(".")
+            raw = getattr(mod, clsname).__dict__[member]
+            if inspect.isfunction(raw):
+                self.fn = raw                                               # a method: fn(self, ...)
+            else:
+                self.fn = lambda obj, _m=member: getattr(obj, _m)          # a property
+        else:
+            self.fn = getattr(mod, qualname)
+        if "fmt_widths" in self.ctx:
+            self.REQUIRE = REQUIRE + "\nLocal Open Scope Z_scope.\nDefinition fmt_widths : list (char * Z) := %s." % _widths(FMT_CHARS)
 
     def inputs(self, tier):
         return list(self.args(tier))
 
     def run(self, args):
-        return canon.outcome(lambda: self.fn(*args))
+        # a FmtStr argument is built afresh for every call (half of them with shared Chunk objects: canon.build_fs);
+        # a FmtStr result is read back as its runs, text and attributes
+        def conv(v):
+            from curtsies.formatstring import FmtStr
+            return FS(canon.canon_fs(v)) if isinstance(v, FmtStr) else v
+        return canon.outcome(lambda: self.fn(*[canon.build_fs(a.runs) if isinstance(a, FS) else a for a in args]), conv)
 
     def to_coq(self, args, out):
         exp = "(Ok %s)" % coq_val(out[1]) if out[0] == "ok" else "(Raise %s)" % out[1]
